@@ -87,7 +87,8 @@ class Spec(PropSpec):
     model_name = "TV.Fs.FsImpl"
     rule = ("histories = open (every std OpenOptions combination) / read / write / seek / write_at / read_at / set_len / "
             "sync_all / sync_data / sync_dir / mkdir(_all) / rmdir(_all) / unlink / rename / stat / exists / read_dir / "
-            "fs::read / fs::write over 10 paths in nested directories, through the std shim and the tokio shim, one or two "
+            "fs::read / fs::write over 10 paths in nested directories, through the std shim, the tokio shim and io_uring "
+            "(write / read / fsync submitted on the raw fd of handles the shims opened, every OpenOptions combination), one or two "
             "hosts with identical names, syncs inserted at every position of a base history, ticks; a case is non-trivial "
             "when bytes are written and later observed by a read or a dump; distinct = distinct (hosts, script)")
     assumptions = [
@@ -138,6 +139,15 @@ class Spec(PropSpec):
             c["cfg"]["via"] = "sim"
             c["flavour"] += "+Sim"
             cases.append(c)
+        # the three front-ends on the same descriptor: io_uring write / read / fsync on fds opened by the std
+        # or the tokio shim with every OpenOptions combination (deterministic family), and random histories
+        # with some positional operations rerouted through the ring
+        cases += F.uring_mix_scenarios(rng)
+        for _ in range(60 * k):
+            c = F.gen_safe(rng, stale=0.0, tokio=rng.choice([0.0, 0.5]))
+            cases.append(F.with_uring(c, rng))
+        for _ in range(30 * k):
+            cases.append(F.with_uring(F.gen_history(rng, 3, stale=0.1), rng))
         return cases
 
     def to_model(self, case, obs):
